@@ -300,6 +300,14 @@ def _initial_values(ctx: Ctx, helpers):
     for p in probs:
         ctx.fail(cons, cfg.loc(seeded[0]), f"seeded initial value: {p} - `{seeded[0].text(120)}`")
         break
+    # the seeded branch is taken whenever a start time was given, including the value 0
+    from ..atoms import Atomizer as _At, must_facts as _mf
+    fx = _mf(cfg, _At(model, helpers, g), seeded[0])
+    tp = shifts[0].left.id if shifts and isinstance(shifts[0].left, ast.Name) else None
+    if tp and not any(f_[0] == tp and f_[1] == "is" and f_[2] is None and f_[3] is False for f_ in fx):
+        ctx.fail(cons + "#presence", cfg.loc(seeded[0]), f"the time-seeded branch is selected by the "
+                 f"truthiness of `{tp}` (facts: {sorted(map(str, fx))}), not by `{tp} is not None`: a "
+                 f"start time whose value is 0 is treated as absent and the high 12 bits are random")
     cons = "SequenceGenerator.__init__:random"
     ctx.inst(cons, sample=plain[0].text(120))
     pv = plain[0].ast.value
